@@ -162,10 +162,10 @@ PROPERTIES['C11'] = {
          claim='PairLexLess (key order of PolySet2) is a strict total order on pairs of non-NaN points', bounds='all finite doubles', targets=['boolean2_sweep.cpp PairLexLess']),
     dict(name='isinside', harness='c11_pred.cpp', entry='h_isinside', backends=['minisat'], timeout=300, unwind={'default': 2},
          claim='IsInside: Add <=> w>0, Intersect <=> w>1, EvenOdd <=> w odd, including negative windings', bounds='all int64 w', targets=['boolean2_sweep.cpp IsInside']),
-    dict(name='pending_add', harness='c11_pred.cpp', entry='h_pending_add', defs={'VF_PA': 2}, backends=['minisat', 'kissat'], timeout=1800, unwind={'default': 4, 'Rb_tree': 3}, recursion={'default': 3}, models=['rbtree.h', 'stdlib.h'], object_bits=12,
+    dict(name='pending_add', harness='c11_pred.cpp', entry='h_pending_add', defs={'VF_PA': 2}, backends=['minisat', 'kissat'], timeout=1800, unwind={'default': 4, 'Rb_tree': 3}, recursion={'default': 3}, models=['rbtree.h', 'stdlib.h'], object_bits=12, tiers=['experimental'],
          claim='SweepPass::PendingAdd (through Seed): after any two additions the multiplicity stored for every lex-ordered edge is the signed sum of the additions (reversed edges count negatively), zero-multiplicity edges are erased, no empty inner map remains, end points of stored edges are scheduled as events',
          bounds='2 additions, end points on the 2x2 lattice {0,1}^2 (degenerate a == b included), multiplicities in [-2,2]; std::map/std::set through models/rbtree.h', targets=['boolean2_sweep.cpp SweepPass::PendingAdd, Seed, LexLess']),
-    dict(name='polyset_add', harness='c11_pred.cpp', entry='h_polyset_add', backends=['minisat', 'kissat'], timeout=1200, unwind={'default': 5, 'Rb_tree': 4}, recursion={'default': 3}, models=['rbtree.h', 'stdlib.h'], object_bits=12,
+    dict(name='polyset_add', harness='c11_pred.cpp', entry='h_polyset_add', backends=['minisat', 'kissat'], timeout=1200, unwind={'default': 5, 'Rb_tree': 4}, recursion={'default': 3}, models=['rbtree.h', 'stdlib.h'], object_bits=12, tiers=['experimental'],
          claim='PolySetAdd: after any three additions the multiplicity stored for every lex-ordered edge key is the signed sum of the additions, zero sums are erased, reversed keys are never stored',
          bounds='3 additions, end points on the 2x2 lattice, multiplicities in [-2,2]; std::map through models/rbtree.h', targets=['boolean2_sweep.cpp PolySetAdd, PairLexLess']),
     dict(name='classify', harness='c11_pred.cpp', entry='h_classify', backends=['minisat', 'kissat'], timeout=900, unwind={'default': 4}, recursion={'default': 2}, defs={'VF_R': 3}, models=['rbtree.h'],
